@@ -306,6 +306,23 @@ def restrictionsSymbolOnly (tbl : Tables) : Bool :=
 
 theorem C09_table_restrictions_symbol_only : restrictionsSymbolOnly Generated.mergeTables = true := by decide +kernel
 
+/-- the documented restrictions (pairs of boundary symbols whose bond is refused), as shipped and described with the
+property: S–halogen, and any pair out of N, O, F, Cl, Br, I -/
+def documentedRestrictions : List (String × List String × List String) :=
+  [("S bond restriction", ["S"], ["F", "Cl", "Br", "I"]),
+   ("bond restriction", ["N", "O", "F", "Cl", "Br", "I"], ["N", "O", "F", "Cl", "Br", "I"])]
+
+/-- the restrictions the rule table in force contains: rules without a bond, with the symbols they list -/
+def restrictionsOf (tbl : Tables) : List (String × List String × List String) :=
+  (tbl.merge.filter fun r => r.bond.isNone).map fun r => (r.name, r.cond1.atom.pos, r.cond2.atom.pos)
+
+/-- the rule table refuses exactly the documented pairs (no exclusion lists on them): a bond outside this list that is
+refused is a violation of the round-trip claim, whatever the data file says -/
+theorem C09_table_restrictions_documented :
+    restrictionsOf Generated.mergeTables = documentedRestrictions ∧
+    ((Generated.mergeTables.merge.filter fun r => r.bond.isNone).all fun r => r.cond1.atom.neg.isEmpty && r.cond2.atom.neg.isEmpty) = true := by
+  decide +kernel
+
 /-- a rule without conditions applies to every pair of boundaries, in the direct orientation -/
 theorem C09_catch_all_applies (orc : Oracle) (r : MergeRule) (h1 : r.cond1 = {}) (h2 : r.cond2 = {})
     (c1 c2 : Compound) (b1 b2 : Boundary) :
